@@ -96,7 +96,8 @@ def _run_sx(contract, seed=0):
     from . import sx, prove, dag
     c = contract
     t_start = time.time()
-    ctx = sx.Ctx(max_paths=c.max_paths, boundaries=c.boundaries, seed=seed)
+    thorough = os.environ.get("VERIF_TIER_EFFECTIVE") == "thorough"
+    ctx = sx.Ctx(max_paths=c.max_paths * (10 if thorough else 1), boundaries=c.boundaries, seed=seed)
     inputs = c.build(ctx)
 
     def fun():
@@ -108,7 +109,8 @@ def _run_sx(contract, seed=0):
 
     obs = []
     try:
-        paths = sx.explore(ctx, fun, budget_s=c.budget_s)
+        # wall-clock budget of one exploration: generous in the thorough tier so that the verdict does not depend on machine load
+        paths = sx.explore(ctx, fun, budget_s=c.budget_s * (6 if os.environ.get("VERIF_TIER_EFFECTIVE") == "thorough" else 1))
     except sx.PathLimit as e:
         return [Ob(f"{c.label}:paths", UNDECIDED, "path-limit", detail={"why": str(e)}, fn=c.fn)]
     t_explore = time.time() - t_start
